@@ -215,7 +215,9 @@ func (r *crashRecording) junkFor(kind, pick int, raw []byte, imgLen int) (junk [
 			roots = append(roots, r.writes[i])
 		}
 	}
-	switch kind % 5 {
+	switch kind % 6 {
+	case 5:
+		return framedNearRecord(pick, imgLen), true
 	case 1:
 		return hostileVals[pick%len(hostileVals)], true
 	case 2:
@@ -275,6 +277,47 @@ func (r *crashRecording) checkTail(base Case, n int, fill []byte) (*Violation, m
 		v.Msg = fmt.Sprintf("complete file (%d bytes, %d flushes) followed by %d junk bytes that contain no root record: %s", len(img)-n, len(exp), n, v.Msg)
 	}
 	return v, ev
+}
+
+// framedNearRecord builds junk that is framed like a root record lying exactly
+// where it is put (doubled begin and end markers, trailer offset == its own
+// offset, both length fields == its size) but is not a complete, self-consistent
+// root record because exactly one thing is wrong inside: the version, the
+// leading length field, the JSON body (not JSON / JSON followed by padding /
+// not an object / an object with a malformed location), one marker byte.
+func framedNearRecord(pick int, at int) []byte {
+	bodies := [][]byte{
+		[]byte("{}"), []byte("xx{}"), append([]byte("{}"), make([]byte, 30)...), []byte("[]"),
+		[]byte(`{"a":{"o":"x","l":1}}`), []byte(`{"a":{"o":0,"l":0}} `+"\x00"), []byte("{}"), []byte("{}"),
+	}
+	variant := pick % 8
+	body := bodies[variant]
+	total := 12 + 4 + 4 + len(body) + 8 + 4 + 12
+	b := make([]byte, 0, total)
+	b = append(b, "0g1t2r0g1t2r"...)
+	ver, l0 := uint32(4), uint32(total)
+	switch variant {
+	case 0:
+		ver = 3 + uint32(pick/8%2)*2 // 3 or 5
+	case 6:
+		l0 = uint32(total) + 1 - uint32(pick/8%2)*2 // total +/- 1
+	}
+	var u32 [4]byte
+	binary.BigEndian.PutUint32(u32[:], ver)
+	b = append(b, u32[:]...)
+	binary.BigEndian.PutUint32(u32[:], l0)
+	b = append(b, u32[:]...)
+	b = append(b, body...)
+	var u64 [8]byte
+	binary.BigEndian.PutUint64(u64[:], uint64(at))
+	b = append(b, u64[:]...)
+	binary.BigEndian.PutUint32(u32[:], uint32(total))
+	b = append(b, u32[:]...)
+	b = append(b, "3e4a5p3e4a5p"...)
+	if variant == 7 {
+		b[3+pick/8%6] ^= 0x20 // one byte of the begin markers damaged
+	}
+	return b
 }
 
 // RunCrashCase replays one saved crash case: Cfg.Extra = [i, j], the
